@@ -68,17 +68,18 @@ const (
 )
 
 type thread struct {
-	id      int
-	name    string
-	state   tstate
-	wake    chan struct{}
-	op      *op
-	service bool // service threads may stay blocked in a receive at the end (idle), harness threads may not
-	panicv  interface{}
-	stack   string
-	nops    int // operations completed so far (program position of straight-line threads)
-	s       *Sched
-	vc      vclock
+	id        int
+	name      string
+	state     tstate
+	wake      chan struct{}
+	op        *op
+	service   bool // service threads may stay blocked in a receive at the end (idle), harness threads may not
+	panicv    interface{}
+	stack     string
+	nops      int // operations completed so far (program position of straight-line threads)
+	s         *Sched
+	vc        vclock
+	extInline bool // the bracketed OS call is being performed inline (see ExtProbe)
 }
 
 type vchan struct {
@@ -92,6 +93,7 @@ type vchan struct {
 }
 
 type Timer struct {
+	C     <-chan time.Time // nil, as for a timer made by time.AfterFunc
 	s     *Sched
 	vc    vclock
 	id    int
@@ -871,6 +873,11 @@ func (s *Sched) endOfExecution() {
 			continue
 		}
 		d := s.describe(t)
+		if t.op != nil && t.op.kind == opRecv && t.op.ch == 0 {
+			// a receive from a nil channel never completes: the thread is stuck, not idle
+			blockedSend = append(blockedSend, fmt.Sprintf("%s blocked for ever receiving from a nil channel at %s", base(t.name), t.op.site))
+			continue
+		}
 		if t.op != nil && (t.op.kind == opSend || (t.op.kind == opSelect && hasSend(t.op))) {
 			blockedSend = append(blockedSend, d)
 		} else if !t.service {
@@ -903,7 +910,7 @@ func (s *Sched) endOfExecution() {
 	} else if len(blockedSend) > 0 && s.Diverged == "" && !s.Truncated {
 		all := append(append([]string{}, blockedSend...), harness...)
 		for _, t := range s.threads {
-			if t.state == tRunnable && t.op != nil && t.service && t.op.kind != opSend && !(t.op.kind == opSelect && hasSend(t.op)) {
+			if t.state == tRunnable && t.op != nil && t.service && t.op.kind != opSend && !(t.op.kind == opSelect && hasSend(t.op)) && !(t.op.kind == opRecv && t.op.ch == 0) {
 				all = append(all, s.describe(t))
 			}
 		}
@@ -1179,9 +1186,18 @@ func (t *Ticker) Stop() { t.s.mu.Lock(); t.armed = false; t.s.mu.Unlock() }
 
 // ExtBegin / ExtEnd bracket a call that blocks in the operating system (UDP read): the thread releases the
 // run token and is not schedulable until the call has returned, which only a harness action brings about.
+// ExtProbe, when set by the world, tells whether the bracketed OS call would return at once (data already queued
+// in the socket). Such a call is performed inline - the thread keeps the token - and its end is an ordinary
+// scheduling point; only a call that really has to wait makes its thread external.
+var ExtProbe func() bool
+
 func ExtBegin() {
 	s := mine()
 	t := s.self()
+	if ExtProbe != nil && ExtProbe() {
+		t.extInline = true
+		return
+	}
 	s.mu.Lock()
 	t.state = tExternal
 	t.op = nil
@@ -1195,6 +1211,11 @@ func ExtBegin() {
 func ExtEnd() {
 	s := mine()
 	t := s.self()
+	if t.extInline {
+		t.extInline = false
+		s.point(&op{kind: opYield, site: site()})
+		return
+	}
 	s.mu.Lock()
 	if s.finished {
 		s.mu.Unlock()
@@ -1217,6 +1238,20 @@ func ExtEnd() {
 			return
 		}
 	}
+}
+
+// ExternalThreads: how many threads are inside an OS call right now.
+func ExternalThreads() int {
+	s := mine()
+	s.mu.Lock()
+	defer s.mu.Unlock()
+	n := 0
+	for _, t := range s.threads {
+		if t.state == tExternal {
+			n++
+		}
+	}
+	return n
 }
 
 // AwaitExternalReturn blocks the calling harness thread (keeping the token) until no thread is inside an OS
